@@ -349,7 +349,7 @@ func genOp(r *rand.Rand, l diskListing, clock *int64, allowRootChange, allowBulk
 					return diskOp{Kind: "bulk-touch", Path: d, Count: 1 + r.Intn(40), Seed: r.Int63(), Mtime: tick()}
 				}
 			}
-			return diskOp{Kind: "bulk", Path: fmt.Sprintf("big%d", r.Intn(3)), Count: 300 + r.Intn(2200), Seed: r.Int63(), Mtime: tick()}
+			return diskOp{Kind: "bulk", Path: fmt.Sprintf("big%d", r.Intn(3)), Count: 300 + r.Intn(1500), Seed: r.Int63(), Mtime: tick()}
 		case 13: // root kind change
 			if !allowRootChange {
 				continue
@@ -1286,11 +1286,11 @@ func (x *c21Run) run() {
 		bulkBudget = 4
 		which := []string{"a", "b"}[x.rng.Intn(2)]
 		for _, op := range []diskOp{
-			{Kind: "bulk", Path: "big0", Count: 300 + x.rng.Intn(2200), Seed: x.rng.Int63(), Mtime: x.clock + 1},
+			{Kind: "bulk", Path: "big0", Count: 300 + x.rng.Intn(1500), Seed: x.rng.Int63(), Mtime: x.clock + 1},
 			{Kind: "bulk-touch", Path: "big0", Count: 97, Seed: x.rng.Int63(), Mtime: x.clock + 2},
 			{Kind: "write", Path: "big0/one-more", Size: 10, Seed: x.rng.Int63(), Mode: 0o644, Mtime: x.clock + 3},
 			{Kind: "bulk-touch", Path: "big0", Count: 2, Seed: x.rng.Int63(), Mtime: x.clock + 4},
-			{Kind: "bulk", Path: "big1", Count: 200 + x.rng.Intn(600), Seed: x.rng.Int63(), Mtime: x.clock + 5},
+			{Kind: "bulk", Path: "big1", Count: 200 + x.rng.Intn(300), Seed: x.rng.Int63(), Mtime: x.clock + 5},
 			{Kind: "remove", Path: "big0"},
 		} {
 			if x.dead {
@@ -1530,7 +1530,7 @@ func runC21Program(r *vk.Run, p *c21Program, hb *heartbeat) {
 func c21() {
 	r := vk.Start("C21", "exploration")
 	debug.SetGCPercent(400)
-	n := r.Pick(40, 3000)
+	n := r.Pick(40, 1000)
 	steps := 15
 	seeds := make([]int64, n)
 	rng := r.Rand("programs")
@@ -1574,6 +1574,8 @@ func c21() {
 
 	r.Assume("watch mode no-watch on both sides, so scans are full scans of the disk and deterministic; every file written by the harness gets an explicit program-unique mtime, identical on both mirrored roots")
 	r.Assume("the order of transition problems is compared as a multiset (core.Transition walks Go maps; the order is unspecified); error texts are compared for presence only, problem/transmission/entry error texts after replacing the per-side root directory and session identifier")
+	r.Assume("Stage is not issued while the destination changed since its last scan and a requested digest has two or more holders in the destination's cache: local.Stage picks its in-root source through a digest->path map built in Go map order, so the required subset is not a function of the inputs there (the monitor rescans first)")
+	r.Assume("FIFOs are created only under names that never carry a file on the other root: local.Stage and rsync.Transmit open files without O_NONBLOCK and block forever on a FIFO (observed; not a local/remote difference)")
 	r.Assume("a Stage or Supply error ends the remote server by design, so a program stops at the first such (equal on both sides) error")
-	r.Finish("random programs of Scan(full?)/Stage+Supply/Supply probes/Transition/disk edits (incl. empty roots, root kind changes, bulk directories of 300-2500 files, stale plans, wrong digests, missing sources, entry-count and staging-size limits) run identically against a local endpoint and a remote endpoint (client<->server over a randomly fragmenting in-memory pipe, compression none/deflate/default); distinct = (operation, outcome class, compression) of steps whose returned values were compared equal", 25)
+	r.Finish("random programs of Scan(full?)/Stage+Supply/Supply probes/Transition/disk edits (incl. empty roots, root kind changes, bulk directories of 300-1800 files, stale plans, wrong digests, missing sources, entry-count and staging-size limits) run identically against a local endpoint and a remote endpoint (client<->server over a randomly fragmenting in-memory pipe, compression none/deflate/default); distinct = (operation, outcome class, compression) of steps whose returned values were compared equal", 25)
 }
